@@ -84,12 +84,20 @@ def get_use_tree(
                     new_rename = merged_rename.get(only_name)
                     if new_rename is None:
                         continue
-                    use_dict_mod.rename_map = merged_rename
+                    # Keep the renames collected from the other USE statements
+                    use_dict_mod.rename_map[only_name] = new_rename
                     use_dict[use_stmnt.mod_name] = use_dict_mod
             else:
-                use_dict[use_stmnt.mod_name] = Use(use_stmnt.mod_name)
-            # Skip if we have already visited module with the same only list
-            if old_len == len(use_dict_mod.only_list):
+                # The whole module is visible, local names stay valid
+                use_dict[use_stmnt.mod_name] = Use(
+                    use_stmnt.mod_name,
+                    rename_map={**use_dict_mod.rename_map, **merged_rename},
+                )
+            # Skip if we have already visited module with the same only list,
+            # but descend again when a restricted module became fully visible
+            if old_len == len(use_dict_mod.only_list) and (
+                old_len == 0 or merged_use_list
+            ):
                 continue
         else:
             if type(use_stmnt) is Use:
